@@ -220,6 +220,23 @@ theorem forwardrefs_typechecking_imports (st : FwdState) (groups : List (String 
     ∃ src names, alookup cls st.importedClasses = some src ∧ alookup src groups = some names ∧ cls ∈ names :=
   fwd_typechecking_complete st groups h cls hc
 
+/-- where the in-body import points: if every local import statement of the module that mentions the
+    class names the module text `src` (and one does), then `src` is what `_store_imported_classes`
+    records, hence (`forwardrefs_imports_in_body`, `forwardrefs_runtime_names`) what the method imports from -/
+theorem forwardrefs_records_import_source (n src : String) (body : List Top) (st : FwdState)
+    (hall : ∀ t ∈ body, storeTarget n t = none ∨ storeTarget n t = some src)
+    (hex : ∃ t ∈ body, storeTarget n t = some src) :
+    alookup n (fwdStoreImported st body).importedClasses = some src :=
+  fwd_store_records n src body st hall (.inr hex)
+
+/-- `from .get_me import GetMe` (module "get_me", level 1) is recorded as ".get_me" — the same qualified
+    module the unplugged module-level import binds `GetMe` to -/
+example :
+    storeTarget "GetMe" (.simple (.importFrom { module := some "get_me", names := [("GetMe", none)], level := 1 })) = some ".get_me" ∧
+    importBindings [{ module := some "get_me", names := [("GetMe", none)], level := 1 }] = [("GetMe", (".get_me", "GetMe"))] ∧
+    importBindings [{ module := some ".get_me", names := [("GetMe", none)], level := 0 }] = [("GetMe", (".get_me", "GetMe"))] := by
+  decide +kernel
+
 /-- a validated "class" that no local import provides kills the generation (finding C15-F5) -/
 theorem forwardrefs_keyerror (st : FwdState) (m : Method) (last : Stmt) (cls : String)
     (hl : m.body.getLast? = some last) (hi : fwdImportClass last = some cls)
@@ -445,7 +462,9 @@ def events (op snake clsName : String) (classes : List ClassDef) (extraImports :
   [ ev "generate_gql_function" (.method gqlFn),
     ev "generate_client_class" (.klass { name := "Client", bases := [.name "AsyncBaseClient"], keywords := 0,
                                          body := .method (method snake clsName op lines) :: extraMethods }),
-    ev "generate_client_module" (.module { body := [] }) ]
+    ev "generate_client_module" (.module { body := [] }),
+    ev "generate_init_import" (.imp (imp 1 "client" ["Client"])),
+    ev "generate_init_module" (.module { body := [] }) ]
 
 /-- C15-F7: `query C { count }`, plugins = [ShorterResults, ClientForwardRefs] -/
 def f7 : Input :=
@@ -490,6 +509,38 @@ def f6 : Input :=
 
 end W
 
+/-! ## 7b. Every subset, every order, every multiplicity: what a chain of bundled plugins can do to the client module -/
+
+/-- `plugin_chain_preserves_methods`.  The module `ClientGenerator.generate` assembles
+    (`imports ++ [gql, class]`, `ClientInv`) goes through the plugin manager with ANY list of bundled
+    plugins in ANY state.  If no hook raises, the result is again such a module (the class is still the
+    first class, nothing is dropped), and every member of the class body is either untouched or a method
+    with the same name which — when it had the generated shape `bodyOf s` — still has a generated shape
+    `bodyOf s'` with the same operation source, operation name, variables expression, validated class and
+    kind; projections are only appended (ShorterResults), in-body imports only prepended
+    (ClientForwardRefs).  Together with §3 (`sem` of a projection), §4 (ExtractOperations, which acts
+    on the method hook) and §5 (where the prepended import points) this is "same request, same accepted
+    responses, apart from the documented change" at the level the plugins control. -/
+theorem plugin_chain_preserves_methods (c : Call) (hc : c.hook = "generate_client_module")
+    (ps ps' : List PState) (M : Module) (cls : ClassDef) (y : Payload) (hinv : ClientInv M cls)
+    (h : manager c ps (.module M) = .ok (ps', y)) :
+    ∃ M' cls', y = .module M' ∧ ClientInv M' cls' ∧ M'.firstClass? = some cls' ∧ cls'.name = cls.name ∧
+      cls'.bases = cls.bases ∧ ItemsRel MethodPreserved cls.body cls'.body := by
+  obtain ⟨M', cls', hy, hinv', hn, hb, hrel⟩ := chain_client_module c hc ps ps' M cls y hinv h
+  exact ⟨M', cls', hy, hinv', firstClass_of_inv hinv', hn, hb,
+    ItemsRel.mono (fun m m' hm => hm.preserved) hrel⟩
+
+/-- non-vacuity: the client module of the witness input is of the assembled form -/
+example : ClientInv
+    { body := [.simple (.importFrom (W.imp 1 "async_base_client" ["AsyncBaseClient"])), .funcDef W.gqlFn,
+               .classDef { name := "Client", bases := [.name "AsyncBaseClient"], keywords := 0,
+                           body := [.method (W.method "c" "C" "C" ["query C {\n"])] }] }
+    { name := "Client", bases := [.name "AsyncBaseClient"], keywords := 0,
+      body := [.method (W.method "c" "C" "C" ["query C {\n"])] } :=
+  ⟨[.simple (.importFrom (W.imp 1 "async_base_client" ["AsyncBaseClient"]))], W.gqlFn, rfl,
+   fun t ht => by simp at ht; subst ht; rfl,
+   ⟨.simple (.importFrom (W.imp 1 "async_base_client" ["AsyncBaseClient"])), by simp, rfl⟩⟩
+
 /-- each witness is a valid input: the unplugged package is generated, loads, has the generated shape -/
 theorem witnesses_valid :
     validB W.f7 = true ∧ validB W.f3 = true ∧ validB W.f3swapped = true ∧ validB W.f4 = true ∧ validB W.f5 = true ∧
@@ -532,11 +583,13 @@ def Supported_15 (x : Input) : Prop :=
   ¬ (trigFwdBeforeShorter x = true ∨ trigShorterUnimportedName x = true ∨ trigFwdSelfCall x = true ∨
      trigOpsModuleClash x = true ∨ trigFwdEmptyTypeChecking x = true)
 
-/-- the region in which the WHOLE-PIPELINE statement is proved so far: configurations made of the
-    identity plugin and NoReimports only.  Lists containing ShorterResults / ExtractOperations /
-    ClientForwardRefs are covered, for every list and every order, by the per-plugin theorems of
-    §1–§8 (method level), and at pipeline level by correspondence and oracle only
-    (evidence: "unproved region"). -/
+/-- the region in which the WHOLE-PIPELINE statement (`loadsB ∧ projOKB ∧ SameBehaviour` of `runPipeline`)
+    is proved so far: configurations made of the identity plugin and NoReimports only.  For lists
+    containing ShorterResults / ExtractOperations / ClientForwardRefs what is proved — for every list,
+    order and multiplicity — is `plugin_chain_preserves_methods` (§7b) and the per-plugin theorems of
+    §3–§7; that the scoping checks `annScopedB`/`wellScopedB` of the assembled package hold for such lists
+    is NOT proved: there the model is evaluated on every generated case and compared with what CPython
+    did (correspondence), and the property is judged by the oracle (evidence: "unproved region"). -/
 def Proved_15 (x : Input) : Prop :=
   ∀ p ∈ x.plugins, p = PState.identity ∨ p = PState.noReimports
 
@@ -606,5 +659,57 @@ example : (singleFieldOf (shorterFacts "fragments" W.f3.events) (W.method "get_m
 /-- a single field inherited from a fragment class counts (`Q(QF)` with `QF.when`) -/
 example : (singleFieldOf (shorterFacts "fragments" W.f4.events) (W.method "q" "Q" "Q" [])).map (·.1) = some "when" := by
   decide +kernel
+
+
+/-! ## 10. Non-vacuity of the hypotheses used above (concrete instances; tests, not theorems) -/
+
+section NonVacuity
+
+def exLines : List String := ["query GetMe {\n", "  me {\n", "    id\n", "  }\n", "}\n"]
+def exMethod : Method := W.method "get_me" "GetMe" "GetMe" exLines
+def exShape : Shape := W.shape "GetMe" "GetMe" exLines
+
+/-- §3/§4/§5: the method client.py builds has the generated shape, no in-body import, the operation inlined,
+    at most one projection, a plain class name as return annotation -/
+example : exMethod.body = bodyOf exShape ∧ exShape.imports = [] ∧ exShape.op = .inline "query" exLines ∧
+    exShape.tail = .call true "response" "data" ∧ exShape.proj.length ≤ 1 ∧ exMethod.returns = some (.name "GetMe") :=
+  ⟨rfl, rfl, rfl, rfl, by decide, rfl⟩
+
+/-- §3: with the classes of the witness recorded, `GetMe` has exactly one field and the plugin's lookup succeeds -/
+example : (match nodeAndClass (shorterFacts "fragments" W.f3.events).classDict "GetMe" with
+    | .ok (some (_, classes, f)) => f == "me" && classes == ["GetMeMe"]
+    | _ => false) = true := by decide +kernel
+
+/-- §4: after `generate_operation_str` the constant is known and the kind/async hypotheses hold -/
+example : alookup "GetMe" ({ vars := [("GetMe", gqlVarName "get_me")] } : ExtractState).vars = some "GET_ME_GQL" ∧
+    ((none : Option String) ≠ some "subscription" ∧ ({} : ExtractState).asyncClient = true) := by decide +kernel
+
+/-- §4: the whole ExtractOperations round on the witness: constant referenced, module written with the same lines -/
+example : (match runWith [.extract {}] W.f3 with
+    | (ps, none) =>
+      (match ps.opsFile?, finalShape [.extract {}] W.f3 "get_me" with
+       | some (name, f), some s =>
+         name == "operations" && f.all == ["GET_ME_GQL"] && alookup "GET_ME_GQL" f.assigns == some exLines &&
+         (match s.op with | .const c => c == "GET_ME_GQL" | _ => false)
+       | _, _ => false)
+    | _ => false) = true := by decide +kernel
+
+/-- §5: ClientForwardRefs on the witness: the class is recorded under ".get_me" and imported in the body from there -/
+example : (match finalShape [.fwd {}] W.f3 "get_me" with
+    | some s => s.imports == [{ module := some ".get_me", names := [("GetMe", none)], level := 0 }] && s.proj == []
+    | none => false) = true := by decide +kernel
+
+/-- §6: NoReimports in the middle of a list: the init module that comes out is empty -/
+example : (match manager { hook := "generate_init_module" } [.extract {}, .noReimports, .identity]
+      (.module { body := [.simple (.importFrom (W.imp 1 "client" ["Client"])), .simple (.assignList "__all__" ["Client"])] }) with
+    | .ok (_, .module m) => m.body.isEmpty
+    | _ => false) = true := by decide +kernel
+
+/-- §7/§7b: both orders on the same input — `[S, F]` projects and imports in the body, `[F, S]` only imports -/
+example : ((finalShape [.shorter {}, .fwd {}] W.f3 "get_me").map (fun s => (s.proj, s.imports.length))) = some (["me"], 1) ∧
+    ((finalShape [.fwd {}, .shorter {}] W.f3 "get_me").map (fun s => (s.proj, s.imports.length))) = some ([], 1) := by
+  decide +kernel
+
+end NonVacuity
 
 end Ariadne.C15
